@@ -138,7 +138,7 @@ Definition Pcross1 (i : nat) (c : list nat) (s : asg) : Prop :=
   Forall (fun di => awc_ok (S (T fb)) (map (cbit s di) (seq 0 (T fb)))
                            (combination_weight fb di * sustain_of fb (hd 0 c) * crossing_weight fb c)
                            (nth i (fl_sizes fb) 0 * crossing_weight fb c))
-         (crossing_combos fb c).
+         (trial_combinations_of fb c).
 
 Fixpoint Pcrossings (i : nat) (cs : list (list nat)) (s : asg) : Prop :=
   match cs with
@@ -199,13 +199,16 @@ Variable fresh : Z.
 Hypothesis Hc : Forall (fun f => f < nf fb) c.
 Hypothesis Hfr : (GZ < fresh)%Z.
 
-Let combos := crossing_combos fb c.
+Let combos := trial_combinations_of fb c.
 Let nc := length combos.
 Let N := T fb * nc.
 Let rows := map (fun t => map (fun di => map (gv t) di) combos) (seq 0 (T fb)).
 Let flattened := concat rows.
 Let fresh1 := (fresh + zn N)%Z.
 Let iffs := map2 (fun sv vars => FIff (FVar sv) (FAnd (map fv vars))) (zrange fresh N) flattened.
+
+Lemma combos_sub di : In di combos -> In di (crossing_combos fb c).
+Proof. unfold combos, trial_combinations_of. intros H. apply filter_In in H. apply H. Qed.
 
 Lemma rows_uniform : Forall (fun r => length r = nc) rows.
 Proof. unfold rows. apply Forall_map. apply Forall_forall. intros t _. now rewrite map_length. Qed.
@@ -237,7 +240,7 @@ Lemma flattened_vars_ok n : n < N ->
   Forall (fun v => 0 < v /\ (zn v <= fresh - 1)%Z) (nth n flattened []).
 Proof.
   intros Hn. destruct (index_split n Hn) as (t & j & Ht & Hj & ->). rewrite (flattened_nth t j Ht Hj).
-  apply (combo_vars_ok c); try assumption. apply nth_In. exact Hj.
+  apply (combo_vars_ok c); try assumption. apply combos_sub. apply nth_In. exact Hj.
 Qed.
 
 (** the values the state variables must take *)
@@ -360,15 +363,14 @@ Lemma step_one_crossing ct :
   exists ext, DefinesA (fresh - 1) (ct_fresh ct - 1) (ct_clauses ct) (ct_requests ct) ext (Pcross1 i c).
 Proof.
   intros Hcf E. pose proof GZ_nonneg as HG.
-  unfold crossing_f1 in Hcf. rewrite !andb_true_iff in Hcf. destruct Hcf as [[[[_ Hlen] Hsize] _] _].
-  apply Nat.eqb_eq in Hlen. apply Nat.ltb_lt in Hsize.
-  assert (Etc : trial_combinations_of fb c = combos) by (apply filter_length_eq; exact Hlen).
-  unfold apply_one_crossing in E. rewrite Etc, (f1_preamble fb HF1 i) in E. cbn [Nat.add] in E. rewrite Nat.sub_0_r in E.
+  unfold crossing_f1 in Hcf. rewrite !andb_true_iff in Hcf. destruct Hcf as [[[_ Hsize] _] _].
+  apply Nat.ltb_lt in Hsize.
+  unfold apply_one_crossing in E. fold combos in E. rewrite (f1_preamble fb HF1 i) in E. cbn [Nat.add] in E. rewrite Nat.sub_0_r in E.
   assert (Eenc : cmapM (fun t => cmapM (fun di => encode_combination fb di t) combos) (seq 1 (T fb)) = COk rows).
   { unfold rows. rewrite <- (seq_shift (T fb) 0).
     rewrite (cmapM_ok _ (fun t => map (fun di => map (gv (t - 1)) di) combos)).
     - f_equal. rewrite map_map. apply map_ext. intros t. now replace (S t - 1) with t by lia.
-    - intros t _. apply cmapM_ok. intros di Hdi. now apply (encode_combo c). }
+    - intros t _. apply cmapM_ok. intros di Hdi. apply (encode_combo c); [exact Hc|now apply combos_sub]. }
   rewrite Eenc in E. cbn [cbind] in E.
   assert (Hrows : rows <> []).
   { intros H. apply (f_equal (@length _)) in H. rewrite rows_length in H. cbn in H. lia. }
@@ -414,7 +416,7 @@ End One.
 
 Lemma crossing_f1_factors i c : crossing_f1 fb i c = true -> Forall (fun f => f < nf fb) c.
 Proof.
-  unfold crossing_f1. rewrite !andb_true_iff. intros [[[[H _] _] _] _]. rewrite forallb_forall in H.
+  unfold crossing_f1. rewrite !andb_true_iff. intros [[[H _] _] _]. rewrite forallb_forall in H.
   apply Forall_forall. intros f Hf. apply Nat.ltb_lt. now apply H.
 Qed.
 
